@@ -52,6 +52,26 @@ def parse_concrete_vals(test_src):
     return vals
 
 
+def make_replay_deferred(prop, obl, rec):
+    """A failed Kani obligation beyond the playback budget of one check run: the replay file names the obligation and
+    carries the verifier's failed checks; `./check --replay <file>` extracts and replays the counterexample on demand."""
+    os.makedirs(os.path.join(vlib.VERIF, "replays", prop), exist_ok=True)
+    path = os.path.join(vlib.VERIF, "replays", prop, obl["name"] + ".json")
+    data = {"kind": "kani-playback", "property": prop, "obligation": obl["name"], "harness": obl["harness"],
+            "function": obl.get("function"), "source_file": obl.get("file"), "contract": obl.get("contract"),
+            "failed_checks": rec.get("failed_checks", []), "why": rec.get("why"),
+            "playback_test_name": None, "playback_test": None, "concrete_vals": None,
+            "deferred": True, "timeout": obl.get("timeout", 120), "unwind": obl.get("unwind"),
+            "verifier_output": "counterexample extraction deferred (playback budget of this run used up by other failed "
+                               "obligations); failed checks: %s" % rec.get("why")}
+    with open(path, "w") as f:
+        json.dump(data, f, indent=1)
+        f.write("\n")
+    rec["replay"] = path
+    rec["replayed_natively"] = False
+    return path
+
+
 def make_replay(prop, obl, rec, src, logdir):
     """Fill rec['replay'] (path) and rec['replayed_natively'] for a failed Kani obligation."""
     os.makedirs(os.path.join(vlib.VERIF, "replays", prop), exist_ok=True)
@@ -170,6 +190,20 @@ def run_native_test(test, src=None, tier="quick", log=None, extra_env=None):
 def cli_replay(path):
     data = json.load(open(path))
     prop = data.get("property", "?")
+    if data["kind"] == "kani-playback" and data.get("deferred") and not data.get("playback_test"):
+        # extraction was deferred by the check run: do it now, on the current tree
+        src, _ = vlib.snapshot("replay")
+        logdir = os.path.join(vlib.WORK, "replay", "logs")
+        os.makedirs(logdir, exist_ok=True)
+        obl = {"name": data["obligation"], "harness": data["harness"], "function": data.get("function"),
+               "file": data.get("source_file"), "contract": data.get("contract"), "timeout": data.get("timeout", 120),
+               "unwind": data.get("unwind")}
+        rec = {"failed_checks": data.get("failed_checks"), "why": data.get("why")}
+        make_replay(prop, obl, rec, src, logdir)
+        data = json.load(open(path))
+        if rec.get("replayed_natively"):
+            print("VIOLATION property=%s replay=%s" % (prop, path))
+            return 1
     if data["kind"] == "kani-playback":
         if not data.get("playback_test"):
             print("replay file carries no counterexample (verifier gave none); obligation %s" % data["obligation"])
